@@ -109,9 +109,13 @@ def spec_build(case):
     if any(n <= 0 for _, n in case["lv"]):
         return {"err": ["ValueError"]}
     rx = dict(case["base"]["rxns"])
+    raw = c05.raw_of(case)
     for name, m in case["maps"]:
         if name not in rx:
             return {"err": ["KeyError"]}
+        if any(spec == "derived" for _, spec in raw.get(name, [])):
+            return {"err": ["NotImplementedError"]}  # `_unpack_stoichiometries` refuses a Derived coefficient
+        # (a float coefficient goes through int(): case["base"]["rxns"] holds the truncated integers)
         subs, prods = c05.unpack(rx[name]["st"])
         if any(c not in lv for c in subs + prods):
             return {"err": ["KeyError"]}
@@ -348,6 +352,7 @@ def model_request(case, R):
     iso_states = [ev["state"] for ev, res in zip(case.get("evals", []), R.get("evals", []))
                   if "state" in ev and ev.get("uniform") is None and "E" in res]
     return {"op": "c16", "lv": case["lv"], "maps": case["maps"], "init": case.get("init", []),
+            "raw": case["base"].get("raw", []),
             "rxns": [[k, r["st"]] for k, r in case["base"]["rxns"]], "evals": evals,
             "helper": helper_inputs(case) if "vocab" in R else [],
             "padded": padded_names(case) if "vocab" in R else [],
@@ -663,6 +668,58 @@ def exhaustive_cases(rng, tier):
     return out
 
 
+def trunc(q):
+    """Python's int() on a float: towards zero"""
+    q = Fraction(q)
+    return int(q) if q >= 0 else -int(-q)
+
+
+def with_raw(case, name, kind):
+    """the reaction `name` written with coefficients that are not all Python ints: 'floats' (-1.0, 2.0: read as the
+    integers), 'half' (first coefficient v + 1/2: int() truncates towards zero, -1/2 drops the compound), 'derived'
+    (first coefficient a Derived: NotImplementedError), 'ints' (explicit ints).  case['base']['rxns'] keeps the
+    integers the linear mapper effectively reads; the isotopomer mapper refuses such a reaction (TypeError), so
+    these cases are linear-only"""
+    rx = dict(case["base"]["rxns"])[name]
+    coefs, eff = [], []
+    for i, (c, v) in enumerate(rx["st"]):
+        if kind == "ints":
+            spec, e = {"int": v}, v
+        elif kind == "floats":
+            spec, e = {"float": str(v)}, v
+        elif i == 0 and kind == "derived":
+            spec, e = "derived", v
+        elif i == 0:
+            q = Fraction(2 * v + 1, 2)
+            spec, e = {"float": fexpr.rat_str(q)}, trunc(q)
+        else:
+            spec, e = {"int": v}, v
+        coefs.append([c, spec])
+        eff.append([c, e])
+    rx["st"] = eff
+    case["base"]["raw"] = [[name, coefs]]
+    if kind != "ints":
+        case["no_iso"] = True
+    return case
+
+
+def raw_coefficient_cases(rng):
+    """seed-independent in structure: the chain -> A -> B -> and the merge A + B -> C with the middle reaction written
+    with floats / a half-integer / a Derived / explicit ints, under the identity, the reversal and a short map"""
+    out = []
+    chain = [("i", [], ["A"]), ("v", ["A"], ["B"]), ("o", ["B"], [])]
+    merge = [("i", [], ["A"]), ("j", [], ["B"]), ("v", ["A", "B"], ["C", "C"]), ("o", ["C"], [])]
+    for tpl, labels in ((chain, {"A": 2, "B": 2}), (merge, {"A": 1, "B": 1, "C": 1})):
+        for kind in ("ints", "floats", "half", "derived"):
+            for mv in ([0, 1], [1, 0], [0]):
+                maps = [(n, list(range(max(sum(labels[c] for c in s_), sum(labels[c] for c in p_))))) for n, s_, p_ in tpl]
+                maps = [(n, mv if n == "v" else m) for n, m in maps]
+                case = with_raw(make_case(tpl, labels, maps), "v", kind)
+                ok = "ok" in spec_build(case)
+                out.append(with_evals(rng, case, n_states=1 if ok else 0, try_steady=ok))
+    return out
+
+
 TEMPLATES = [
     # (reactions, description): every compound labelled
     [("i", [], ["A"]), ("v1", ["A"], ["B"]), ("o", ["B"], [])],
@@ -740,6 +797,8 @@ def random_case(rng):
             # 1 / len(positions) must be exact in a double: 1 or 2 positions
             init.append([c, sorted(rng.sample(range(labels[c]), rng.randint(1, min(2, labels[c]))))])
     case = make_case(tpl, labels, maps, init=init)
+    if rng.random() < 0.04:
+        case = with_raw(case, rng.choice(tpl)[0], rng.choice(["ints", "floats", "half", "derived"]))
     # `initial_labels={"A": 1}`: a bare int for a single position
     case["init_as_int"] = [c for c, pos in init if len(pos) == 1 and rng.random() < 0.5]
     if rng.random() < 0.03:
@@ -857,6 +916,9 @@ def run(ctx):
     big = large_cases(rng, ctx.tier)
     ctx.extra_cov["many_positions_stratum"] = len(big)
     run_cases(ctx, big)
+    rawc = raw_coefficient_cases(rng)
+    ctx.extra_cov["raw_coefficient_stratum"] = len(rawc)
+    run_cases(ctx, rawc)
     reuse = reuse_cases(rng, ctx.tier) + [random_reuse_case(rng) for _ in range(ctx.n(800, 20000))]
     ctx.extra_cov["mapper_reuse_stratum"] = len(reuse)
     run_cases(ctx, reuse)
